@@ -237,8 +237,14 @@ func c14eval(c c14Case) (fs []ev.Finding, states []uint64) {
 	rank := len(c.Text) + 1000*len(c.Steps)
 	wit := fmt.Sprintf("%s ; history %v", c.Text, c.stepNames())
 	var clone *influxql.SelectStatement
+	pristine := astx.Dump(astx.Full, orig)
 	if p, st := try(func() { clone = orig.Clone() }); p != nil {
 		return []ev.Finding{{Sig: "panic:Clone", Witness: wit, Detail: fmt.Sprint(p) + st, Case: c, Rank: rank}}, nil
+	}
+	// the very first Clone of a freshly parsed statement must leave it as parsed (memo fields included)
+	if now := astx.Dump(astx.Full, orig); now != pristine {
+		sig, d := c14diffSig("receiver-changed:first-Clone", pristine, now)
+		fs = append(fs, ev.Finding{Sig: sig, Witness: c.Text, Detail: "Clone changed the statement it was called on: " + d, Case: c14Case{Text: c.Text}, Rank: len(c.Text)})
 	}
 	if path, a, b := astx.Diff(astx.Full, orig, clone); path != "" {
 		fs = append(fs, ev.Finding{Sig: "clone-differs:" + astx.GenericPath(path) + ":" + astx.ValueClass(a) + "→" + astx.ValueClass(b), Witness: c.Text,
@@ -465,6 +471,9 @@ func c14run(r *ev.Run) {
 	for _, t := range []string{
 		"SELECT percentile(value, 90 + 5) FROM m", "SELECT mean(v) FROM m GROUP BY time(5m, now())", "SELECT f(1 + 2, x) FROM m WHERE g(2 * 3) > 1",
 		"SELECT top(v, 1 + 1) FROM m GROUP BY time(1m + 1m)",
+		// an interval that has not been asked for yet (the memo of GroupByInterval is part of the statement's state)
+		"SELECT mean(v) FROM m GROUP BY time(5m)", "SELECT mean(v) FROM m WHERE time > now() - 1h GROUP BY time(5m, 1m), host fill(none) ORDER BY time ASC",
+		"SELECT mean(v) FROM (SELECT max(v) AS v FROM m GROUP BY time(1m), host ORDER BY time) GROUP BY time(10m) ORDER BY time DESC",
 		// subqueries whose own clauses fold: a reduction of the outer statement must not re-point or edit them
 		"SELECT v FROM (SELECT v FROM m WHERE time > now() - 1h)", "SELECT v FROM (SELECT 1 + 1 AS v FROM m GROUP BY time(1m + 1m, now()))",
 		"SELECT v FROM (SELECT v FROM (SELECT percentile(v, 90 + 5) AS v FROM m WHERE a = 1 + 2)), m2 WHERE time > now() - (1h + 1m)",
